@@ -112,7 +112,20 @@ def replay_encoder(R, o):
                 'static const ace_time::extended::ZoneEra e = { nullptr, "x", %s, %s, 0, 1, 1, 0, 0 };\n' % (oc, dc))
     r = subprocess.run(['clang++'] + build.CXXFLAGS + ['-Wc++11-narrowing', '-fsyntax-only', src], capture_output=True, text=True)
     detail['clang'] = (r.stderr or 'compiles')[-500:]
-    return r.returncode != 0, detail
+    if r.returncode != 0:
+        return True, detail
+    # it compiles: read the entry back through the real C++ broker
+    with open(src, 'a') as f:
+        f.write('#include <stdio.h>\n#include <ace_time/internal/Brokers.h>\nint main() { ace_time::extended::ZoneEraBroker b(&e); '
+                'printf("%d %d\\n", b.offsetMinutes(), b.deltaMinutes()); return 0; }\n')
+    exe = src[:-4]
+    r = subprocess.run(['clang++'] + build.CXXFLAGS + [src, '-o', exe], capture_output=True, text=True)
+    if r.returncode:
+        detail['link'] = r.stderr[-300:]
+        return False, detail
+    out = subprocess.run([exe], capture_output=True, text=True).stdout.split()
+    detail['decoded_by_cpp'] = dict(offsetMinutes=int(out[0]), deltaMinutes=int(out[1]))
+    return (int(out[0]) * 60 != off or int(out[1]) * 60 != delta), detail
 
 
 def run(R):
